@@ -164,6 +164,10 @@ func GenOp(t *rapid.T, w *World, p *Profile) Op {
 		}
 	}
 	add("save", saveOK)
+	if w.Quiet && saveOK && w.LastVReadOp.Kind != "" && w.Erased[w.LastVReadOp.N] {
+		// the version asked for last was erased by a rollback: commit (different contents) until that number exists again
+		cs = append(cs, cand{"save", 70}, cand{"set", 40}, cand{"remove", 15})
+	}
 	if vs := w.Vers[w.WorkingVersion()]; vs != nil && vs.Logged && len(vs.Writes) > 0 && !w.Dirty && w.Cur < w.Latest && w.Vers[w.Cur] != nil {
 		add("replay", true)
 	}
@@ -181,6 +185,9 @@ func GenOp(t *rapid.T, w *World, p *Profile) Op {
 		rollbackOK = false // (LoadVersion on this handle is documented to fail: initial version above the first stored one)
 	}
 	add("lvfo", rollbackOK)
+	if w.Quiet && rollbackOK && p.W["lvfo"] > 0 && w.LastVReadOp.Kind != "" && w.Vers[w.LastVReadOp.N] != nil && w.First < w.LastVReadOp.N {
+		cs = append(cs, cand{"lvfo_below_last_vread", 14}) // roll back the very version a client has just been reading
+	}
 	add("lvfo_invalid", w.Latest > 0)
 	add("dvf", rollbackOK)
 	add("setnil", true)
@@ -200,7 +207,11 @@ func GenOp(t *rapid.T, w *World, p *Profile) Op {
 	add("reload", reloadOK && !w.LiveInitAbove)
 	add("reload_invalid", w.Latest > 0 && !w.LiveInitAbove)
 	add("setinit", !w.Dirty)
-	if w.Quiet && w.Latest > 0 && p.W["vread"] == 0 {
+	if w.Quiet && w.LastVReadOp.Kind != "" && w.Erased[w.LastVReadOp.N] {
+		// (no other versioned read while the version asked for last is waiting to be committed again)
+	} else if w.Quiet && w.Recommitted[w.LastVReadOp.N] && w.Vers[w.LastVReadOp.N] != nil {
+		cs = append(cs, cand{"vread", 60}) // the version last asked for was erased and committed again: ask again soon
+	} else if w.Quiet && w.Latest > 0 && p.W["vread"] == 0 {
 		cs = append(cs, cand{"vread", 28}) // quiet cases are checked through drawn versioned reads
 	} else {
 		add("vread", w.Latest > 0)
@@ -273,6 +284,14 @@ func GenOp(t *rapid.T, w *World, p *Profile) Op {
 		return Op{Kind: "prune", N: w.Latest + int64(rapid.IntRange(0, 1).Draw(t, "over"))}
 	case "lvfo":
 		return Op{Kind: "lvfo", N: rapid.SampledFrom(w.Retained()).Draw(t, "to")}
+	case "lvfo_below_last_vread":
+		var below []int64
+		for _, v := range w.Retained() {
+			if v < w.LastVReadOp.N {
+				below = append(below, v)
+			}
+		}
+		return Op{Kind: "lvfo", N: rapid.SampledFrom(below).Draw(t, "toBelow")}
 	case "lvfo_invalid":
 		// below the oldest retained version (deleted / never existed) or above the latest
 		if w.First > 1 && rapid.Bool().Draw(t, "invLow") {
@@ -280,7 +299,11 @@ func GenOp(t *rapid.T, w *World, p *Profile) Op {
 		}
 		return Op{Kind: "lvfo_invalid", N: w.Latest + int64(rapid.IntRange(1, 3).Draw(t, "invOver"))}
 	case "dvf":
-		return Op{Kind: "dvf", N: rapid.SampledFrom(w.Retained()).Draw(t, "to"), Flag: rapid.Bool().Draw(t, "fresh")}
+		o := Op{Kind: "dvf", N: rapid.SampledFrom(w.Retained()).Draw(t, "to"), Flag: rapid.Bool().Draw(t, "fresh")}
+		if rapid.IntRange(0, 2).Draw(t, "dvfCold") == 0 {
+			o.Read = "cold" // DeleteVersionsFrom as the first call on a brand-new handle
+		}
+		return o
 	case "hop":
 		c := genCfg(t, false)
 		return Op{Kind: "hop", N: rapid.SampledFrom(w.Retained()).Draw(t, "ver"), Flag: rapid.Bool().Draw(t, "compress"), Cfg: &c}
@@ -296,6 +319,11 @@ func GenOp(t *rapid.T, w *World, p *Profile) Op {
 		}
 		return Op{Kind: "pin", N: rapid.SampledFrom(w.Retained()).Draw(t, "pinv")}
 	case "vread":
+		// a version number that was rolled back and committed again since it was last asked for: the same question again
+		if w.Recommitted[w.LastVReadOp.N] && w.Vers[w.LastVReadOp.N] != nil && rapid.IntRange(0, 3).Draw(t, "vrAgain") != 0 {
+			w.Labels["vread_repeated_after_the_version_was_rolled_back_and_recommitted"] = true
+			return w.LastVReadOp
+		}
 		n := w.Latest
 		if rapid.IntRange(0, 2).Draw(t, "vrOlder") == 0 {
 			n = rapid.SampledFrom(w.Retained()).Draw(t, "vrv")
